@@ -25,6 +25,19 @@ def scoped(c):
     return x
 '''
 
+CLASSBODY_SRC = '''GN = 22
+sh = 44
+abs = 55
+
+
+def scoped(c):
+    class Body:
+        ln = 11
+        sh = 33
+        x = c  # TP:scoped
+    return Body.x
+'''
+
 EXPR = {'local': 'ln', 'hostglobal': 'GN', 'builtin': 'len((1,2,3))', 'shadow_lg': 'sh', 'shadow_gb': 'abs',
         'agentonly': 'len(uuid.__name__)', 'undefined': 'no_such_name_q',
         'local_nested': '(lambda: ln)()', 'shadow_nested': 'next(sh for _ in (1,))'}
@@ -64,7 +77,7 @@ def run_case(case, expected, wd):
     val = VALUE[src][nc] if src != 'ERR' else None
     plugin = R.role_plugin('rec', {'log', 'metric'})
     rg = R.Rig(plugins=[plugin])
-    mod, path, marks = R.write_host(wd, SCOPE_SRC)
+    mod, path, marks = R.write_host(wd, CLASSBODY_SRC if case.get('frame') == 'classbody' else SCOPE_SRC)
     base = path.rsplit('/', 1)[-1]
     tp = {'id': 'tp-scope', 'path': base, 'line': marks['scoped'], 'args': {}, 'watches': [], 'metrics': []}
     mine = [expr]
